@@ -140,7 +140,7 @@ pub fn proposal_ids() -> Vec<ProposalShortId> {
 }
 
 /// blocks: tx count 1..=3 (first is always a cellbase-shaped tx), proposals 0..=2, uncles 0..=2,
-/// extension absent / present
+/// extension absent / present with 0, 1, 32, 96 bytes
 pub fn blocks() -> Vec<BlockView> {
     let txs = transactions();
     let hs = headers();
@@ -150,7 +150,7 @@ pub fn blocks() -> Vec<BlockView> {
     for ntx in 1..=3usize {
         for np in 0..=2usize {
             for nu in 0..=2usize {
-                for ext in [None, Some(Bytes::from(vec![7u8; 32])), Some(Bytes::from(vec![9u8; 96]))] {
+                for ext in [None, Some(Bytes::new()), Some(Bytes::from(vec![5u8; 1])), Some(Bytes::from(vec![7u8; 32])), Some(Bytes::from(vec![9u8; 96]))] {
                     salt += 7;
                     let h = pick(&hs, salt);
                     let mut b = BlockBuilder::default().header(h);
